@@ -37,6 +37,8 @@ type Obl struct {
 	Splits []*Term // case-split terms (each a Bool); query i asserts Splits[i]; plus coverage
 	VC     *VC
 	Expect string // "unsat" (default) or "sat" for cover/vacuity checks
+	ClauseCE *CE          // the contract clause behind a post obligation (for replay)
+	FC       *FuncContract
 }
 
 type VC struct {
@@ -55,6 +57,7 @@ type VC struct {
 	inputSyms []InputSym // for replay
 	nfresh    int
 	target    *ssa.Function // function under proof (nil for lemmas)
+	globalRefs map[string]int64
 	sideStack [][]*Term
 }
 
@@ -63,6 +66,7 @@ type InputSym struct {
 	Path  string // e.g. "", ".len", "[k]"
 	Sym   string
 	ByteSlice bool
+	BigInt    bool
 }
 
 func (vc *VC) decl(name, sort string) *Term {
@@ -725,8 +729,18 @@ func (x *Exec) get(fr *Frame, st *State, v ssa.Value) Value {
 		// address of a package-level variable
 		pt := c.Type().Underlying().(*types.Pointer).Elem()
 		name := "G." + c.Pkg.Pkg.Name() + "." + c.Name()
-		root := x.vc.decl(name, refSort)
-		x.vc.assumeOnce(And(iGt(root, IntLit(0)), iLt(root, x.vc.decl("H0.$alloc", SInt))))
+		// package-level variables are distinct objects: give each a distinct small literal reference
+		if x.vc.globalRefs == nil {
+			x.vc.globalRefs = map[string]int64{}
+		}
+		id, ok := x.vc.globalRefs[name]
+		if !ok {
+			id = int64(len(x.vc.globalRefs) + 1)
+			x.vc.globalRefs[name] = id
+		}
+		root := x.vc.define(name, IntLit(id))
+		root = IntLit(id)
+		x.vc.assumeOnce(iLt(IntLit(100000), x.vc.decl("H0.$alloc", SInt)))
 		x.alloc(st)
 		return Value{T: c.Type(), K: KPtr, Loc: &Loc{Prefix: canonPrefix(pt), Root: root, T: pt}}
 	case *ssa.Builtin:
